@@ -25,6 +25,7 @@ def stepHAsIs (s : St) : St :=
   | .fireDl :: r => { s with hprog := r, ctx := if s.ctx = .live then .deadline else s.ctx }
   | .firePc :: r => { s with hprog := r, ctx := if s.ctx = .live then .cancelled else s.ctx }
   | .awaitCtx :: r => if s.ctx = .live then s else { s with hprog := r }
+  | .awaitL :: r => { s with hprog := r }
   | .awaitE :: r => if s.tEntered then { s with hprog := r } else s
   | .awaitT :: r => if s.tWritten then { s with hprog := r } else s
   | .signalH :: r => { s with hprog := r, hGo := true }
@@ -35,7 +36,7 @@ def stepHAsIs (s : St) : St :=
 
 /-- `waitH`: the configured timeout handler waits for the handler's signal before it writes
     (`timeout.WithHandler`); `preferDone`: which ready `select` case Go picks -/
-def stepRAsIs (waitH : Bool) (preferDone : Bool) (s : St) : St :=
+def stepRAsIs (waitH : Hooks) (preferDone : Bool) (s : St) : St :=
   match s.rpc with
   | .select =>
     -- `done` is ready and Go picks it (always when `ctx.Done()` is not ready)
@@ -46,19 +47,20 @@ def stepRAsIs (waitH : Bool) (preferDone : Bool) (s : St) : St :=
     else if s.ctx = .deadline then { s with timedOut := true, tEntered := true, rpc := .thandler }
     else { s with rpc := .returned, releasedEarly := !s.hDone }
   | .thandler =>
-    if waitH && !s.hGo then s
+    if waitH.waitH && !s.hGo then s
     else ({ s with tWritten := true, rpc := .waitDone }).write .t408
+  | .logging => s
   | .waitDone => if s.hDone then finishRAsIs s else s
   | .returned => s
 
-def stepAsIs (waitH : Bool) (s : St) : Tok → St
+def stepAsIs (waitH : Hooks) (s : St) : Tok → St
   | .h => stepHAsIs s
   | .rd => stepRAsIs waitH true s
   | .rc => stepRAsIs waitH false s
   | .dl => { s with ctx := if s.ctx = .live then .deadline else s.ctx }
   | .pc => { s with ctx := if s.ctx = .live then .cancelled else s.ctx }
 
-def runAsIs (waitH : Bool) (sched : List Tok) (s : St) : St := sched.foldl (stepAsIs waitH) s
+def runAsIs (waitH : Hooks) (sched : List Tok) (s : St) : St := sched.foldl (stepAsIs waitH) s
 
 
 end Rivaas.Timeout
